@@ -5,7 +5,7 @@ cd "$(dirname "$0")"
 export CARGO_NET_OFFLINE=true
 python3 tools/mkvendor.py /verif/vendor
 (cd harness && cargo build --bins -q)
-(cd harness && cargo build --release -q -p hx --bin progsim)
+(cd harness && cargo build --release -q -p hx --bin progsim --bin hostile)
 (cd harness-inert && cargo build -q)
 (cd harness-plain && cargo build -q)
 # ThreadSanitizer build (instrumented std); a failure here only makes that supplement inconclusive
